@@ -21,6 +21,8 @@ class Random:
     def random_float(self, start: float, end: float, precision: Nilable[int] = Nil) -> float:
         if start > end:
             raise ValueError("random_float: start must be <= end")
+        if start == end:
+            return float(start)
 
         if precision is Nil:
             return random.uniform(start, end)
